@@ -554,8 +554,9 @@ GLUE_FIND = """
         assert!(log.skipped.get() == (m >= 1), "C10: skip_to_end must be called exactly when a match exists");
         assert!(!log.pull_after_own_skip.get(), "C10: a worker pulled again after its own skip_to_end");
         glue_common_post(&log, params, n);
-        kani::cover!(m >= 1 && log.worker_of(ST_MAP, exp[0].p as usize) == 1);
+        kani::cover!(m >= 1);
         kani::cover!(m == 0);
+        kani::cover!(m >= 1 && log.worker_of(ST_MAP, exp[0].p as usize) == 1);
     }
 """
 
@@ -623,9 +624,9 @@ def gen_glue(kernel, body):
             covers = 2
             if n == 0:
                 covers = 1 if fam in ('red', 'find') else 0
-            elif fam == 'find' and cut is not None and cut < nb - 1:
-                covers = 1 if False else None  # `m == 0` is infeasible when blocks are withheld; checked loosely
-            elif n < 2 and fam != 'find':
+            elif fam == 'find':
+                covers = None  # which of the three cover points are feasible depends on owner table and frontier: at least one
+            elif n < 2:
                 covers = None
             if first_quick:
                 HARNESSES[name + '_u'] = dict(kernel=kernel, family='glue_' + fam, props=props, tier=t2, bounded=True,
